@@ -197,7 +197,7 @@ vdata_cmp(int32 vs1, int32 vs2, char *gname, char *cname, diff_opt_t *opt)
     int32           vsotag2;
     char            vsclass2[VSNAMELENMAX], vsname2[VSNAMELENMAX];
     uint8          *b1, *b2;
-    int32           off1[60], off2[60];
+    int32           off1[VSFIELDMAX], off2[VSFIELDMAX];
     DYN_VWRITELIST *w1, *w2;
     uint32          nfound      = 0;
     uint32          max_err_cnt = opt->max_err_cnt;
